@@ -35,6 +35,8 @@ class Col(Obj):
         self.attrs["@in_"] = lambda s, v: Cond("in", name, list(v))
         self.attrs["@like"] = lambda s, v, **kw: Cond("like", name, v, kw)
         self.attrs["@op"] = lambda s, o: (lambda v: Cond(str(o).upper(), name, v))
+        for m_ in ("ilike", "startswith", "endswith", "contains", "regexp_match", "match", "glob", "notlike", "not_like"):
+            self.attrs["@" + m_] = (lambda s, v=None, _m=m_, **kw: Cond(_m, name, v, kw))
 
     def __eq__(self, other):
         return Cond("==", self.name, other)
@@ -270,4 +272,17 @@ class QREval:
             return "raised", exc.kind
         if not isinstance(r, Result):
             raise Unsupported(f"{fname}() returned something other than query.all()")
+        return "conds", list(r.conds)
+
+    def conds_for(self, values: dict):
+        """build_query() on an identifier with `values` -> ('conds', [Cond..]) | ('raised', kind)"""
+        self.it.steps = 0
+        try:
+            r = self.it.globals["build_query"](self.dataset(values), self.session(), None)
+        except Raised as exc:
+            return "raised", exc.kind
+        if r is None:
+            return "conds", []
+        if not isinstance(r, Query):
+            raise Unsupported("build_query() returned something other than a query")
         return "conds", list(r.conds)
